@@ -501,7 +501,7 @@ impl ZiPatch {
                     match pchunk.operation {
                         SqpkOperation::AddData(add) => {
                             let filename = get_dat_path(
-                                target_info.as_ref().unwrap(),
+                                target_info.as_ref().ok_or(PatchError::ParseError)?,
                                 add.main_id,
                                 add.sub_id,
                                 add.file_id,
@@ -524,7 +524,7 @@ impl ZiPatch {
                         }
                         SqpkOperation::DeleteData(delete) => {
                             let filename = get_dat_path(
-                                target_info.as_ref().unwrap(),
+                                target_info.as_ref().ok_or(PatchError::ParseError)?,
                                 delete.main_id,
                                 delete.sub_id,
                                 delete.file_id,
@@ -544,7 +544,7 @@ impl ZiPatch {
                         }
                         SqpkOperation::ExpandData(expand) => {
                             let filename = get_dat_path(
-                                target_info.as_ref().unwrap(),
+                                target_info.as_ref().ok_or(PatchError::ParseError)?,
                                 expand.main_id,
                                 expand.sub_id,
                                 expand.file_id,
@@ -568,13 +568,13 @@ impl ZiPatch {
                         SqpkOperation::HeaderUpdate(header) => {
                             let file_path = match header.file_kind {
                                 TargetFileKind::Dat => get_dat_path(
-                                    target_info.as_ref().unwrap(),
+                                    target_info.as_ref().ok_or(PatchError::ParseError)?,
                                     header.main_id,
                                     header.sub_id,
                                     header.file_id,
                                 ),
                                 TargetFileKind::Index => get_index_path(
-                                    target_info.as_ref().unwrap(),
+                                    target_info.as_ref().ok_or(PatchError::ParseError)?,
                                     header.main_id,
                                     header.sub_id,
                                     header.file_id,
